@@ -168,7 +168,7 @@ func (d *Device) handleABSEvent(ie *input.InputEvent) {
 	if lastValue == value {
 		return
 	}
-	d.lastAnalogValue[ie.Source.Name][ie.Event.Code] = value
+	shapedValue := value
 
 	if analog.FlipAxis {
 		if canBeNegative {
@@ -183,6 +183,8 @@ func (d *Device) handleABSEvent(ie *input.InputEvent) {
 	if d.ccLearning && !emulation && !(value < -0.5 || value > 0.5) {
 		return
 	}
+	// only a position that is passed on counts as sent: one swallowed above must not suppress its repetition later
+	d.lastAnalogValue[ie.Source.Name][ie.Event.Code] = shapedValue
 
 	if !d.noLogs {
 		log.Info(fmt.Sprintf("Analog event: %s", ie.Event.String()), d.logFields(
